@@ -30,9 +30,10 @@ PAL = {
     'int32': [0x01020304, 0x80000000, 0x7FFFFFFF, 0xFFFFFFFF, 0, 0x55555555, 0xAAAAAAAA, 0x000000FF, 0xFF000000],
     'uint32': [0x01020304, 0x80000000, 0x7FFFFFFF, 0xFFFFFFFF, 0, 0x55555555, 0xAAAAAAAA, 0x000000FF, 0xFF000000],
 }
-CASTS = {'float64': [None, 'float32', 'float64'], 'float32': [None, 'float64'], 'int8': [None, 'int16', 'float64'],
-         'int16': [None, 'int32', 'float32'], 'int32': [None, 'float64'], 'uint8': [None, 'uint16', 'int16'],
-         'uint16': [None, 'uint32', 'float64'], 'uint32': [None, 'float64']}
+CASTS = {'float64': [None, 'float32', 'float64', '>f4', '>f8'], 'float32': [None, 'float64', '>f8', '>f4'],
+         'int8': [None, 'int16', 'float64', '>i2'], 'int16': [None, 'int32', 'float32', '>i4', '>i2'],
+         'int32': [None, 'float64', '>f8', '>i4'], 'uint8': [None, 'uint16', 'int16', '>u2'],
+         'uint16': [None, 'uint32', 'float64', '>u4', '>u2'], 'uint32': [None, 'float64', '>u4']}
 SRC = ['inline', 'dict', 'struct', 'h5']
 
 
@@ -180,6 +181,8 @@ def _classify(c, detail):
     """Name the input class of a row mismatch so that distinct defects get distinct signatures."""
     tags = set()
     for ch in c['chans']:
+        if ch.get('cast') and ch['cast'].startswith('>'):
+            tags.add('byte-ordered-cast')
         if ch['bo'] == '>' and len(ch['shape']) > 1 and DTYPE_SIZES[ch['dtype']] > 1:
             tags.add('bigendian-2d')
         elif ch['bo'] == '>' and DTYPE_SIZES[ch['dtype']] > 1:
